@@ -10,7 +10,8 @@ Model of `internal/interval` (intersect.go, nesting.go), instantiated at int key
 * The loop of `Intersect.Insert` is written once, generically over the value representation
   (`Ops`), so that the same control flow can be run on Go slices (`goOps`, the real thing) and on
   plain lists (`listOps`, used by the proofs).  `fixGap`/`clipFix` select the two candidate
-  patches; the code AS IT IS corresponds to `fixGap = false`, `clipFix = false`.
+  patches; the code in /repo now (after 406dde02) is `current` = `fixGap = false`, `clipFix = true`;
+  `asIs` (`false`, `false`) is the code before that commit, kept to document the finding.
 -/
 namespace PCV.Interval
 
@@ -197,8 +198,11 @@ structure Cfg where
   clipFix : Bool
 deriving Repr, DecidableEq
 
-/-- The code as it is in /repo. -/
+/-- The code as it was when C40 was first examined (before /repo commit 406dde02). -/
 def asIs : Cfg := ⟨false, false⟩
+/-- The code as it is in /repo now: 406dde02 applied the clip patch
+    (`entry.Value = append(slices.Clip(orig), value)`); the gap patch is not applied. -/
+def current : Cfg := ⟨false, true⟩
 /-- Both proposed patches applied. -/
 def patched : Cfg := ⟨true, true⟩
 
